@@ -20,6 +20,8 @@
 #include "node.h"
 #include "convert.h"
 #include <sys/uio.h>
+#include <sys/mman.h>
+#include <climits>
 #include "mc.hpp"
 
 // The C constructor mptcore/node/node_new.c cannot be reached by name: libmpt++ defines mpt_node_new() as well
@@ -957,6 +959,49 @@ static void list_body(Run &r, Ctx &x, const std::string &job, ListCounters &lc)
 	if (!e.empty()) { report(r, "release", e, where); return; }
 }
 
+// ------------------------------------------------------------------ over-long job: lengths far beyond the limit
+// Lengths above the 65535 limit are outside what an identifier can hold; the function documents a refusal ("max length
+// exceeded").  Every storage kind x {unset, short text, long text} x lengths {65535, 65536, 2^20, INT_MAX-1, INT_MAX} with a name
+// and {65536, 2^20, INT_MAX-1, INT_MAX, -2, INT_MIN} without must be refused with the identifier unchanged.  The name is a 2 GiB readable mapping (lazily
+// mapped zero pages, nothing is committed) so that a call that is not refused reads valid memory; each probe runs in a
+// forked child because a copy of 2 GiB destroys the heap of the process that executes it.
+static void overlong_body(Run &r, Ctx &x, uint64_t &nontrivial)
+{
+	guard_install();
+	static const long lens[] = { 65535, 65536, 1L << 20, (long) INT_MAX - 1, INT_MAX, -2, INT_MIN };
+	static char *big = 0;
+	if (!big) { big = (char *) mmap(0, (size_t) 1 << 31, PROT_READ, MAP_PRIVATE | MAP_ANONYMOUS | MAP_NORESERVE, -1, 0); if (big == (char *) MAP_FAILED) { big = 0; r.incomplete("cannot map 2 GiB of address space"); return; } }
+	int kind = (int) x.choose(NKINDS), pre = (int) x.choose(3), li = (int) x.choose(sizeof lens / sizeof *lens), null = (int) x.choose(2);
+	long len = lens[li];
+	if (!null && len < 0) return;       // a negative length with a name is the strlen form, not an excess length
+	static const size_t prelen[] = { 0, 3, 300 };
+	std::string where = fmt("%s: A:=%s ; set(A, %s, %ld)", kname[kind], pre ? fmt("P(%zu)", prelen[pre]).c_str() : "unset", null ? "NULL" : "<2 GiB readable>", len);
+	r.note("%s", where.c_str());
+	r.hint("set(over-long)");
+	if (!li && !null) ++r.states;
+	++r.transitions;
+	bool permitted = null && len == 65535;       // 65535 zero bytes is the longest permitted non-text content
+	std::string out = in_child([&]() -> std::string {
+		Tally tally; Sys s(&tally); Alphabet al;
+		al.contents.push_back(Content{true, 0, FP}); al.contents.push_back(Content{false, prelen[pre], FP});
+		if (!s.init(kind, EMB16)) return "create";
+		if (pre && !set_content(al, s.a, s.ma, 1)) return "pre-state";
+		uint64_t img = image(s.a.id);
+		asan_error();
+		void *ret = LIB(mpt::mpt_identifier_set(s.a.id, null ? 0 : big, (int) len));
+		if (permitted) { if (!ret) return "refused"; s.set_model(al, s.ma, 0, FZ, 65535); }
+		else if (ret) return "accepted";
+		else if (image(s.a.id) != img) return "changed";
+		if (asan_error()) return "asan";
+		std::string e = s.light(s.a, s.ma, "A");
+		return e.empty() ? std::string("OK") : e;
+	}, 60);
+	if (out == "OK") { if (len == INT_MAX || len == INT_MIN) ++nontrivial; r.count(permitted ? "over-long: longest permitted accepted" : "over-long: refused unchanged"); return; }
+	std::string what = out.empty() ? "forked probe ended without a result" : (out[0] == '\x01' ? "the call crashed the process (" + out.substr(1) + ")" : "probe reports: " + out);
+	r.violation(std::string("set(over-long)|") + (pre == 0 ? "unset" : (pre == 1 ? "inline" : "ext")) + "->refused|" + (len == INT_MAX ? "len=INT_MAX" : (len < 0 ? "len<0" : "len>65535")) + "|not-refused",
+	            where + ": a length beyond the limit must be refused and leave the identifier unchanged; " + what);
+}
+
 // ------------------------------------------------------------------ jobs
 void mc_jobs(Tier t, std::vector<std::string> &jobs)
 {
@@ -964,13 +1009,17 @@ void mc_jobs(Tier t, std::vector<std::string> &jobs)
 	// A runs through every storage kind; B (source / second target of copies) through storages of inline capacity 12, 84, 212, 252 (quick: 12, 252); capacity 20 in the item<T> pairs
 	if (t == Quick) bk = { EMB16, NEW256 };
 	else bk = { EMB16, CXXNODE, NODE256, NEW256 };
-	for (int a = 0; a < NKINDS; ++a) for (int b : bk) jobs.push_back(std::string("A=") + kname[a] + ",B=" + kname[b]);
+	for (int a = 0; a < NKINDS; ++a) {
+		if (t == Quick && (a == NEW64 || a == NEW128 || a == NODE128)) continue;    // middle size classes: thorough only
+		for (int b : bk) jobs.push_back(std::string("A=") + kname[a] + ",B=" + kname[b]);
+	}
 	// item<T> against item<T> (default-constructed and copy-constructed): whole-object copy operations
 	for (int a : {ITEM32, ITEMCOPY}) for (int b : {ITEM32, ITEMCOPY}) {
 		std::string j = std::string("A=") + kname[a] + ",B=" + kname[b];
 		if (std::find(jobs.begin(), jobs.end(), j) == jobs.end()) jobs.push_back(j);
 	}
 	jobs.push_back("alloc");
+	jobs.push_back("overlong");
 	for (size_t i = 0; i < list_names(t).size(); ++i) jobs.push_back("list=" + std::to_string(i));
 }
 
@@ -992,6 +1041,14 @@ void mc_explore(Run &r, const std::string &job)
 		uint64_t nt = 0; Tally tally;
 		dfs(r, [&](Ctx &x) { alloc_body(r, x, nt, tally); });
 		tally.flush(r);
+		r.count("nontrivial", nt);
+		return;
+	}
+	if (job == "overlong") {
+		declare(r, false);
+		r.require("over-long: refused unchanged"); r.require("over-long: longest permitted accepted");
+		uint64_t nt = 0;
+		dfs(r, [&](Ctx &x) { overlong_body(r, x, nt); });
 		r.count("nontrivial", nt);
 		return;
 	}
@@ -1017,6 +1074,7 @@ void mc_explore(Run &r, const std::string &job)
 void mc_replay(Run &r, const std::string &job, const Vec &v)
 {
 	if (job == "alloc") { uint64_t nt = 0; Tally tally; dfs_replay(r, [&](Ctx &x) { alloc_body(r, x, nt, tally); }, v); return; }
+	if (job == "overlong") { uint64_t nt = 0; dfs_replay(r, [&](Ctx &x) { overlong_body(r, x, nt); }, v); return; }
 	if (job.compare(0, 5, "list=") == 0) { ListCounters lc = {0, 0, 0, 0, 0}; dfs_replay(r, [&](Ctx &x) { list_body(r, x, job, lc); }, v); return; }
 	PairJob pj;
 	prepare(r, pj, job);
